@@ -187,22 +187,70 @@ Proof.
     + inversion H; subst. reflexivity.
 Qed.
 
-(* ---------------- TRACE current_Ks: bounded exhaustive check (N <= 7) and the refuted clause *)
-(* the matrix that should result: rows and columns [index] deleted from the N x N matrix *)
-Definition ks_expected (n index : nat) (k : list Z) : list Z :=
-  flat_map (fun i => map (fun j => nth ((if i <? index then i else S i) * n + (if j <? index then j else S j)) k 0%Z)
-                         (seq 0 (n - 1))) (seq 0 (n - 1)).
-Definition ks_case_ok (n index : nat) : bool :=
-  let k := map Z.of_nat (seq 1000 (n * n)) in
-  let '(k', ob) := ks_rows (n - 1) 0 (n - 1) n index k 0 0 in
-  zl_eqb (firstn ((n - 1) * (n - 1)) k') (ks_expected n index k) && (ob =? 0).
-(* for every N in 2..7 and every index except the last one the reshuffle is exactly the sub-matrix and
-   stays inside the N*N allocation *)
-Theorem ks_remove_ok_bounded :
-  forallb (fun n => forallb (fun i => ks_case_ok n i) (seq 0 (n - 1))) (seq 2 6) = true.
-Proof. vm_compute. reflexivity. Qed.
-(* removing the LAST particle (index = N-1): neither `i == index` nor `j == index` ever fires, the rows keep
-   their old stride and the matrix is misaligned.  N = 3, index 2: [1000;1001;1002;1003] instead of
-   [1000;1001;1003;1004].  Confirmed on the library. *)
-Theorem ks_remove_last_refuted : exists n, 2 <= n /\ ks_case_ok n (n - 1) = false.
-Proof. exists 3. split; [lia|vm_compute; reflexivity]. Qed.
+(* ---------------- TRACE current_Ks: the in-place reshuffle yields exactly the sub-matrix, for every N *)
+Lemma lin_lt : forall n a b i j, a < i -> b < n -> a * n + b < i * n + j.
+Proof. intros. nia. Qed.
+Lemma lin_inj : forall n a b i j, b < n -> j < n -> a * n + b = i * n + j -> a = i /\ b = j.
+Proof.
+  intros n a b i j Hb Hj H. destruct (Nat.lt_trichotomy a i) as [L|[E|L]].
+  - pose proof (lin_lt n a b i j L Hb). lia.
+  - subst. split; auto. lia.
+  - pose proof (lin_lt n i j a b L Hj). lia.
+Qed.
+Lemma src_ge : forall n index i j, i * n + j <= ks_src (S n) index i j.
+Proof. intros. unfold ks_src. destruct (i <? index); destruct (j <? index); nia. Qed.
+Lemma src_lt : forall n index i j, i < n -> j < n -> ks_src (S n) index i j < S n * S n.
+Proof. intros. unfold ks_src. destruct (i <? index); destruct (j <? index); nia. Qed.
+Lemma dst_lt : forall n i j, i < n -> j < n -> i * n + j < S n * S n.
+Proof. intros. nia. Qed.
+
+(* loop invariant: entries before position (i,j) hold their final value, entries from it on are untouched *)
+Definition ks_inv (n index : nat) (k0 k : list Z) (i j : nat) : Prop :=
+  length k = length k0 /\
+  (forall a b, b < n -> (a < i \/ (a = i /\ b < j)) -> nth (a * n + b) k 0%Z = nth (ks_src (S n) index a b) k0 0%Z) /\
+  (forall q, i * n + j <= q -> nth q k 0%Z = nth q k0 0%Z).
+
+Lemma ks_row_inv : forall cnt j i n index k0 k ob k' ob', j + cnt = n -> i < n -> S n * S n <= length k0 ->
+  ks_inv n index k0 k i j -> ks_row cnt j i n (S n) index k ob = (k', ob') ->
+  ks_inv n index k0 k' (S i) 0 /\ ob' = ob.
+Proof.
+  induction cnt; intros j i n index k0 k ob k' ob' Hj Hi Hl (I1 & I2 & I3) H; cbn [ks_row] in H.
+  - inversion H; subst. split; auto. unfold ks_inv. split; auto. split.
+    + intros a b Hb [Ha|[_ Hb0]]; [|lia]. apply I2; auto. lia.
+    + intros q Hq. apply I3. lia.
+  - pose proof (src_ge n index i j). pose proof (src_lt n index i j Hi ltac:(lia)). pose proof (dst_lt n i j Hi ltac:(lia)).
+    rewrite !chk_in in H by lia. rewrite !Nat.add_0_r in H.
+    apply IHcnt with (k0 := k0) in H; auto; try lia.
+    unfold ks_inv. rewrite upd_length. split; auto. split.
+    + intros a b Hb Hab. destruct (Nat.eq_dec (a * n + b) (i * n + j)) as [E|NE].
+      * apply lin_inj in E; try lia. destruct E; subst. rewrite nth_upd_eq by lia. apply I3. lia.
+      * rewrite nth_upd_neq by lia. apply I2; auto. destruct Hab as [Ha|[Ha Hb2]]; [left; auto|].
+        subst a. right. split; auto. destruct (Nat.eq_dec b j); [subst; lia|lia].
+    + intros q Hq. rewrite nth_upd_neq by lia. apply I3. lia.
+Qed.
+
+Lemma ks_rows_inv : forall cnt i n index k0 k ob k' ob', i + cnt = n -> S n * S n <= length k0 ->
+  ks_inv n index k0 k i 0 -> ks_rows cnt i n (S n) index k ob = (k', ob') ->
+  ks_inv n index k0 k' n 0 /\ ob' = ob.
+Proof.
+  induction cnt; intros i n index k0 k ob k' ob' Hi Hl HI H; cbn [ks_rows] in H.
+  - inversion H; subst k' ob'. assert (i = n) by lia. subst i. auto.
+  - destruct (ks_row n 0 i n (S n) index k ob) as [k1 ob1] eqn:ER.
+    apply ks_row_inv with (k0 := k0) in ER; auto; try lia. destruct ER as [HI1 ->].
+    apply IHcnt with (k0 := k0) in H; auto. lia.
+Qed.
+
+(* removal of ANY index (the last one included) from an N x N matrix, N = n+1: entry (a,b) of the new
+   n x n matrix (stride n) is entry (a', b') of the old one (stride N), a' = a or a+1 skipping [index];
+   every access stays inside the N*N allocation *)
+Theorem ks_remove_exact : forall n index k ob k' ob', S n * S n <= length k ->
+  ks_rows n 0 n (S n) index k ob = (k', ob') ->
+  ob' = ob /\ length k' = length k /\
+  forall a b, a < n -> b < n ->
+    nth (a * n + b) k' 0%Z = nth ((if a <? index then a else S a) * S n + (if b <? index then b else S b)) k 0%Z.
+Proof.
+  intros n index k ob k' ob' Hl H.
+  apply ks_rows_inv with (k0 := k) in H; auto.
+  - destruct H as [(I1 & I2 & _) ->]. split; auto. split; auto. intros a b Ha Hb. apply I2; auto.
+  - unfold ks_inv. split; auto. split; [intros a b Hb [Ha|[_ Hb0]]; lia|auto].
+Qed.
